@@ -14,6 +14,9 @@ def one(arg):
     sid, extra = arg
     d = os.path.join(VERIF, "seeded", sid)
     meta = json.load(open(os.path.join(d, "meta.json")))
+    if meta.get("obsolete"):
+        # a later fix: commit removed the code the change lived in (or made the tree behave like it): nothing to apply
+        return sid, {"-": "obsolete"}
     checks = list(dict.fromkeys(list(meta.get("checks_run", {})) + extra)) or [sid.split("-")[0]]
     res = {}
     for c in checks:
